@@ -655,7 +655,14 @@ func (obj *Hmm) PosteriorMarginals(data HmmDataRecord) ([]Vector, error) {
 
 func (obj *Hmm) GetParameters() Vector {
   p := Vector(obj.Pi)
-  p  = p.AppendVector(obj.Tr.AsVector())
+  // row by row, as SetParameters reads them (AsVector lists the elements
+  // of a transposed matrix in the order of its storage)
+  n, m := obj.Tr.Dims()
+  for i := 0; i < n; i++ {
+    for j := 0; j < m; j++ {
+      p = p.AppendScalar(obj.Tr.At(i, j))
+    }
+  }
   return p
 }
 
